@@ -5,7 +5,7 @@ CONSTANTS
   SponsorOf <- Sp3
   SizeOf <- Sz3
   Rates = {0, 1, 2}
-  FailRates = {1, 2}
+  FailRates = {1}
   Maxes = {0, 1, 2, 3, 4}
   Stamps = {0, 2, 4}
   ExpChoices <- OneExp
